@@ -179,7 +179,15 @@ let run_conc (var : variant) reg g init_st (f : string array) (p0 : int) (impl :
                   if optok = "c" then Some OCreate
                   else if optok = "x" then Some (OClose my)
                   else if optok = "d" then Some (ODelete my)
-                  else if optok = "m" then Some (OCommit (my, no_faults))
+                  else if optok = "m" then begin
+                    (* the Apply of the value "FAIL" fails wherever it comes in the apply order: find its position *)
+                    let (_, evs0) = step var reg g st (OCommit (my, no_faults)) in
+                    let rec pos i = function
+                      | [] -> 0
+                      | EApply (_, v, _) :: r -> if token_of_value v = "s4641494c" then i else pos (i + 1) r
+                      | _ :: r -> pos i r in
+                    Some (OCommit (my, { no_faults with f_apply = nat_of_int (pos 1 evs0) }))
+                  end
                   else if optok = "g" then None
                   else if String.length optok > 2 && String.sub optok 0 2 = "s:" then begin
                     match String.split_on_char ':' optok with
@@ -188,7 +196,12 @@ let run_conc (var : variant) reg g init_st (f : string array) (p0 : int) (impl :
                   else failwith "bad conc op" in
                 let (st', rtok, sid', evs) =
                   match o with
-                  | None -> (st, "ok", sids.(k), [])
+                  | None ->
+                    (* a read is admissible iff it is what GetRunning returns at the linearisation point: the
+                       sequential specification of C13_linearizable (Linearizable.mgr_step), extracted *)
+                    (match mgr_step var reg g st CGetRunning with
+                     | (_, RStore s) -> (st, "g:" ^ Digest.to_hex (Digest.string (show_store s)), sids.(k), [])
+                     | _ -> (st, "g:?", sids.(k), []))
                   | Some o ->
                     let ((st', r), evs) = step var reg g st o in
                     (st', show_res r, (match r with RId x -> x | _ -> sids.(k)), evs) in
